@@ -307,8 +307,8 @@ Section NoPanic.
     match goal with |- bind ?R _ <> _ /\ _ => pose proof (Hrec _ _ _ : R <> Panic) as Hr; destruct R as [r| | |] end;
       cbn [bind]; try (split; [discriminate|intros; discriminate]); [|contradiction].
     destruct (is_dead r) eqn:Edead.
-    - pose proof (delete_elem_np vk vv des) as Hd.
-      destruct (delete_elem vk vv des) as [des'| | |]; cbn [bind];
+    - pose proof (delete_elem_np ek ev des) as Hd.
+      destruct (delete_elem ek ev des) as [des'| | |]; cbn [bind];
         try (split; [discriminate|intros; discriminate]); [|contradiction].
       split; [discriminate|]. intros st' E. inversion E; subst. cbn. split; auto.
     - destruct r as [w|]; [|cbn in Edead; discriminate].
